@@ -16,5 +16,6 @@ for s in $seeds; do
   esac
   echo -e "$s\t$c\t$o" | tee -a $out.tmp
 done
-mv $out.tmp $out
+# merge: new results replace old lines of the same seed
+( [ -f $out ] && grep -v -F -f <(cut -f1 $out.tmp | sed "s/$/\t/") $out; cat $out.tmp ) | sort -V > $out.new; mv $out.new $out; rm -f $out.tmp
 for c in $(cut -f2 $out | sort -u); do (cd /verif && ./check $c quick >/dev/null 2>&1); done
